@@ -164,6 +164,9 @@ const PATH_TPLS: &[&str] = &[
     // marker expressions that differ only by the case of an escape class (digits / anything but digits)
     "/n/@num",
     "/n/@txt",
+    // the same pattern as "/u/@id" and "/u/@id/p/@slug" up to the name of a marker: same language, other captures
+    "/u/@uid",
+    "/u/@uid/p/@slug",
 ];
 const QUERIES: &[&str] = &["x=1", "a=1&b=2", "q=test"];
 
@@ -373,6 +376,9 @@ impl RuleGen {
             if t.contains("@num") {
                 markers.push(json!({"name": "num", "regex": "\\d+"}));
             }
+            if t.contains("@uid") {
+                markers.push(json!({"name": "uid", "regex": "[0-9]+"}));
+            }
             if t.contains("@txt") {
                 markers.push(json!({"name": "txt", "regex": "\\D+"}));
             }
@@ -512,6 +518,9 @@ fn instantiate_path(rng: &mut Rng, t: &str) -> String {
     }
     if p.contains("@num") {
         p = p.replace("@num", &rng.pick_str(&["1", "42"]));
+    }
+    if p.contains("@uid") {
+        p = p.replace("@uid", &rng.pick_str(&["1", "42", "007", "4x"]));
     }
     if p.contains("@txt") {
         p = p.replace("@txt", &rng.pick_str(&["ab", "x-y", "Ab"]));
@@ -777,7 +786,7 @@ fn gen_case(rng: &mut Rng, prop: &str, mode: &str, tier: Tier) -> W1Case {
         if cluster && rng.coin() {
             // a family of mixed-case marker sources with no other trigger: they all live in one path tree, sharing
             // prefixes of different lengths ("/Ca", "/Catalog/Sh"), so insertion order decides which node splits
-            let path = rng.pick_str(&["/Catalog/Shoes/@id", "/Catalog/Shirts/@id", "/Cart/@id", "/CATALOG/@slug", "/Catalog/Shoes/@id/@slug", "/Care/@slug"]);
+            let path = rng.pick_str(&["/Catalog/Shoes/@id", "/Catalog/Shirts/@id", "/Cart/@id", "/CATALOG/@slug", "/Catalog/Shoes/@id/@slug", "/Care/@slug", "/Cart/@uid"]);
             r["source"] = json!({"scheme": Value::Null, "host": Value::Null, "ips": Value::Null, "path": path, "query": Value::Null, "headers": Value::Null,
                 "methods": Value::Null, "exclude_methods": Value::Null, "response_status_codes": r["source"]["response_status_codes"].clone(),
                 "exclude_response_status_codes": r["source"]["exclude_response_status_codes"].clone(), "sampling": Value::Null});
@@ -787,6 +796,9 @@ fn gen_case(rng: &mut Rng, prop: &str, mode: &str, tier: Tier) -> W1Case {
             }
             if path.contains("@slug") {
                 markers.push(json!({"name": "slug", "regex": "(?:[a-z]|\\-)+?"}));
+            }
+            if path.contains("@uid") {
+                markers.push(json!({"name": "uid", "regex": "[0-9]+"}));
             }
             r["markers"] = json!(markers);
             if let Some(t) = r["target"].as_str() {
